@@ -2,6 +2,7 @@ package checks
 
 import (
 	"fmt"
+	"reflect"
 	"strings"
 
 	flags "github.com/jessevdk/go-flags"
@@ -38,7 +39,7 @@ func c06Pos(layout int) ([]*decl.PosArg, string) {
 	return nil, ""
 }
 
-func c06Decl(mask int, layout int, onB bool, cmdRequired bool) *decl.Decl {
+func c06Decl(mask int, layout int, onB bool, cmdRequired bool, withConfig bool) *decl.Decl {
 	req := func(i int) string {
 		if mask&(1<<uint(i)) != 0 {
 			return c06Truthy[i%3]
@@ -52,9 +53,13 @@ func c06Decl(mask int, layout int, onB bool, cmdRequired bool) *decl.Decl {
 		{Field: "P1", Short: "p", Long: "pone", Type: decl.TBool, Required: req(0)},
 		{Field: "P2", Short: "P", Long: "p%two", Type: decl.TString, Required: req(1)},
 	}}
-	b := &decl.Cmd{Field: "B", Name: "b", Opts: []*decl.Opt{{Field: "B1", Short: "r", Long: "bone", Type: decl.TBool, Required: req(4)}}}
+	if withConfig {
+		// declared last: its default fires after the required options have been visited by the default pass
+		top.Opts = append(top.Opts, &decl.Opt{Field: "Config", Long: "config", Type: decl.TFuncS, Defaults: []string{"f"}})
+	}
+	b := &decl.Cmd{Field: "B", Name: "b", Opts: []*decl.Opt{{Field: "B1", Short: "r", Long: "bone", Type: decl.TBools, Required: req(4)}}}
 	a := &decl.Cmd{Field: "A", Name: "a", SubOptional: true, Cmds: []*decl.Cmd{b}, Opts: []*decl.Opt{
-		{Field: "A1", Short: "q", Long: "aone", Type: decl.TBool, Required: req(2)},
+		{Field: "A1", Short: "q", Long: "aone", Type: decl.TFunc0, Required: req(2)},
 		{Field: "A2", Long: "atwo", Type: decl.TString, Required: req(3)},
 	}}
 	cc := &decl.Cmd{Field: "C", Name: "c", Opts: []*decl.Opt{{Field: "C1", Short: "t", Long: "cone", Type: decl.TBool, Required: req(5)}}}
@@ -80,6 +85,9 @@ func init() {
 		mask := c.Choose(64)
 		lay := c.Deviate(15) // 0 = none; 1..7 on b; 8..14 on the parser
 		cmdReq := c.Deviate(2) == 1
+		// 1: an INI file read before the parse supplies the parser's string option and a's string option;
+		// 2: the same file is read by a callback option's default, declared after the required options
+		iniSupply := c.Deviate(3)
 		api := c.Bool()
 		layout, onB := 0, false
 		if lay >= 1 && lay <= 7 {
@@ -96,19 +104,29 @@ func init() {
 		for i := 0; i < n; i++ {
 			argv = append(argv, c06Units[c.Choose(len(c06Units))]...)
 		}
-		key := fmt.Sprintf("m%d/l%d/%v", mask, lay, cmdReq)
+		key := fmt.Sprintf("m%d/l%d/%v/%v", mask, lay, cmdReq, iniSupply == 2)
 		d := cache[key]
 		if d == nil {
 			if len(cache) > 100 {
 				cache = map[string]*decl.Decl{}
 			}
-			d = c06Decl(mask, layout, onB, cmdReq)
+			d = c06Decl(mask, layout, onB, cmdReq, iniSupply == 2)
 			cache[key] = d
 		}
 		c.Describe(func() interface{} {
-			return map[string]interface{}{"tree": describeTree(d.Top), "api_path": api, "argv": argv}
+			return map[string]interface{}{"tree": describeTree(d.Top), "api_path": api, "argv": argv,
+				"ini_file_supplying_P2_and_A2": []string{"not read", "read before ParseArgs", "read by the default of a func(string) option declared last on the parser"}[iniSupply]}
 		})
 		cfg := &ref.Config{D: d}
+		if iniSupply != 0 {
+			cfg.Supplied = map[*decl.Opt]bool{}
+			for _, o := range d.EveryOpt() {
+				if o.Field == "P2" || o.Field == "A2" {
+					cfg.Supplied[o] = true
+				}
+			}
+			c.Hit("supplied-by-ini")
+		}
 		res := ref.Run(cfg, argv)
 		recordStates(c, key, res, nil)
 		var b *decl.Built
@@ -120,6 +138,26 @@ func init() {
 		if b.Err != nil {
 			c.Fail("setup-error", b.Err.Error())
 			return
+		}
+		if iniSupply != 0 {
+			var iniErr error
+			readIni := func() {
+				iniErr = flags.NewIniParser(b.Parser).Parse(strings.NewReader("[Application Options]\nP2 = v\n[a]\nA2 = v\n"))
+			}
+			if iniSupply == 1 {
+				readIni()
+			} else {
+				for _, o := range d.Top.Opts {
+					if o.Field == "Config" {
+						b.Vals[o].Set(reflect.ValueOf(func(string) { readIni() }))
+					}
+				}
+			}
+			defer func() {
+				if iniErr != nil {
+					c.Fail("harness-ini-read-failed", iniErr.Error())
+				}
+			}()
 		}
 		rr := runParser(b, cfg, argv, runOpts{CommandHandler: true})
 		if rr.Panic != nil {
@@ -175,10 +213,10 @@ func init() {
 		DevBound:   func(bool) int { return 1 },
 		Rule: "tree parser -> a -> b, sibling c, 6 options; all 64 subsets marked required (spellings yes/true/1, the others unmarked or marked false/no/0) x positional layouts " +
 			"{none, 2 scalars struct-required, per-field required, rest required 2, 1-2, 0-1, optional, two scalars made required by setting Command.ArgsRequired in the program} on b or on the parser x {tags, API} x every sequence of <= 3 (quick) / <= 4 (thorough) units " +
-			"supplying options by short, long=, separate and cluster spellings, command words, plain words and the -- terminator (PassDoubleDash set; words after it still count for the positional constraints); one more deviation makes subcommands mandatory at both inner levels (a missing required option is still ErrRequired, not ErrCommandRequired); oracle = CLM missing set: ErrRequired iff something on the active chain is missing, " +
+			"supplying options by short, long=, separate and cluster spellings, command words, plain words and the -- terminator (PassDoubleDash set; words after it still count for the positional constraints); one more deviation makes subcommands mandatory at both inner levels (a missing required option is still ErrRequired, not ErrCommandRequired); option types bool, string, func(), []bool; one more deviation has an INI file supply two of the options, read before the parse or by the default of a callback option declared after them; oracle = CLM missing set: ErrRequired iff something on the active chain is missing, " +
 			"message names every missing item and none that is supplied or belongs to an unselected command; nothing executed",
 		Assumptions:  []string{"required options carry no default/env here (whether a default supplies a required option is not settled by the statement)", "markers are long option names / positional names chosen so that none is a substring of another"},
-		RequiredHits: []string{"clean", "required-fault|options", "required-fault|positionals"},
+		RequiredHits: []string{"clean", "required-fault|options", "required-fault|positionals", "supplied-by-ini"},
 		Bound:        [2]string{"unit sequences <= 3", "unit sequences <= 4"},
 		BudgetS:      [2]int{170, 1500},
 	})
